@@ -61,11 +61,22 @@ structure FrameStep {K V : Type} (fp : K → Bool) (f : Store K V → Store K V)
 /-! ## the inventory row type shared with the regenerated table `BMV.Gen.MapRanges` -/
 
 /-- one site found by the extractor (`harness/cmd/c07`): identity string
-    `kind|file|function|expression|ordinal` and the syntactic class of the loop body -/
+    `kind|file|function|expression|ordinal` and the syntactic class of the loop body (a sorted
+    list of flags; `[]` for clock / rand / env / go sites).  `key` = `siteKey id cls`, computed by
+    the extractor: the kernel compares keys, not strings (string equality in the kernel costs
+    about 0.1 s per pair) -/
 structure Site where
+  key : Nat
   id : String
-  cls : String
+  cls : List String
 deriving DecidableEq, Repr
+
+/-- FNV-1a, 64 bit, of the UTF-8 bytes of a string -/
+def fnv64 (s : String) : Nat :=
+  s.toUTF8.foldl (fun h b => ((h ^^^ b.toNat) * 0x100000001b3) % 18446744073709551616) 0xcbf29ce484222325
+
+/-- the key of a site / table row: hash of `<identity>#<flag>+<flag>…` -/
+def siteKey (id : String) (cls : List String) : Nat := fnv64 (id ++ "#" ++ "+".intercalate cls)
 
 /-! ## concrete models of the Go loops (each cites file:function) -/
 
